@@ -9,3 +9,5 @@ import Cstl.Heap.Props
 import Cstl.Conc.Props
 import Cstl.HashFn.Props
 import Cstl.Link.Props
+import Cstl.Sort.Props
+import Cstl.Tree.Props
